@@ -56,8 +56,11 @@ func specStr(s *EntSpec) string {
 		name = fmt.Sprintf("%s…(%d bytes)", name[:10], len(name))
 	}
 	links := ""
+	if s.Serial != 0 {
+		links = fmt.Sprintf(" serial:%d", s.Serial)
+	}
 	if s.LinkField != "" {
-		links = fmt.Sprintf(" SetLinkedIds(%s, %q)", s.LinkField, s.LinkIDs)
+		links += fmt.Sprintf(" SetLinkedIds(%s, %q)", s.LinkField, s.LinkIDs)
 	}
 	return fmt.Sprintf("{name:%q alias:%s roles:%q note:%q ref:%s sys:%v extra:%q tag:%s%s}", name, p(s.Alias), s.Roles, s.Note, p(s.Ref), s.IsSystem, s.Extra, p(s.TagV), links)
 }
@@ -554,6 +557,9 @@ func diffEnt(e *Ent, me *MEnt) string {
 	}
 	if strp(e.Ref) != strp(me.Ref) {
 		d = append(d, fmt.Sprintf("ref %s vs %s", strp(e.Ref), strp(me.Ref)))
+	}
+	if e.Serial != me.Serial {
+		d = append(d, fmt.Sprintf("serial %d vs %d", e.Serial, me.Serial))
 	}
 	if e.IsSystem != me.IsSystem {
 		d = append(d, fmt.Sprintf("isSystem %v vs %v", e.IsSystem, me.IsSystem))
